@@ -7,7 +7,7 @@ import numpy as np
 
 from solvers import solve_with_batch, COMBOS, Prepared, dense_design, solver_cells
 
-UNITS = ["SolverStruct", "BatchGen", "DesignGen", "ShapesSolvers", "SkelSolvers"]
+UNITS = ["SolverStruct", "BatchGen", "DesignGen", "ShapesSolvers", "SkelSolvers", "ShapesApi", "SkelApi"]
 PROPS = ["props/C13.v"]
 ASSUMPTIONS = ["exact real arithmetic in the theorems; agreement 'to precision' (1e-7 relative to the largest element) is a tolerance check on well-conditioned data"]
 
@@ -75,6 +75,10 @@ def check(ctx):
                              replay={**rep, "relation": name, **(extra or {})}, has_input=True)
             a, b = 1.7, -0.6
             judge("linearity", sfit(P, orders, d, a * f1 + b * f2, 100), {m: a * base1[m] + b * base2[m] for m in orders})
+            # linearity across unit systems: forces in units 1e-12 / 1e+9 times smaller / larger (force constants of magnitude 1e-12:
+            # any absolute threshold or rounding of the output shows up as a relative error)
+            judge("linearity[scale=1e-12]", sfit(P, orders, d, 1e-12 * f1, 100), {m: 1e-12 * base1[m] for m in orders})
+            judge("linearity[scale=1e+9]", sfit(P, orders, d, 1e9 * f1, 100), {m: 1e9 * base1[m] for m in orders})
             for bs in (1, 2, 5):
                 perm = rng.permutation(n)
                 judge(f"permutation[batch={bs}]", sfit(P, orders, d[perm], f1[perm], bs), base1, {"perm": perm.tolist(), "batch_size": bs})
@@ -92,6 +96,13 @@ def check(ctx):
                 judge("layout[constructor]", {m: np.array(oL.force_constants[m]) for m in orders}, base1)
             except np.linalg.LinAlgError as e_:
                 judge("layout[constructor]", e_, base1)
+            # an undisplaced snapshot (all displacements exactly zero, residual forces not zero) contributes only zero rows to the
+            # design: wherever it stands in the list, and whether it is there at all, the fit is the same
+            d0 = np.concatenate([np.zeros((1, P.N, 3)), d])
+            f0 = np.concatenate([rng.normal(size=(1, P.N, 3)), f1])
+            judge("undisplaced-snapshot[first]", sfit(P, orders, d0, f0, 100), base1)
+            pz = np.concatenate([np.arange(1, n // 2 + 1), [0], np.arange(n // 2 + 1, n + 1)])
+            judge("undisplaced-snapshot[middle]", sfit(P, orders, d0[pz], f0[pz], 100), base1)
             judge("duplication[x2]", sfit(P, orders, np.concatenate([d, d]), np.concatenate([f1, f1]), 3), base1)
             if not ctx.quick:
                 judge("duplication[x3]", sfit(P, orders, np.concatenate([d, d, d]), np.concatenate([f1, f1, f1]), 7), base1)
